@@ -40,6 +40,7 @@ type ctlState struct {
 	restartInProgress                            bool // an automatic restart has begun and the pipeline is not yet reported running again
 	forceStopIssued                              bool // a force stop request has been issued at some time in this run
 	forceStopFoundRunOver                        bool // ... and at that moment the run had already closed all its plugin sessions
+	forceDuringGraceful                          bool // ... or a graceful stop of that run had already been acknowledged
 	// the start in progress (a Start call or an automatic restart) and what its run has done so far
 	startActive       bool
 	openedSinceStart  int
@@ -165,6 +166,9 @@ func (o *Oracles) onControlEvent(w *World, e *Event) {
 			// the run this request is aimed at had already ended (every plugin session closed,
 			// e.g. by a graceful stop that has just finished draining): it changes nothing any more
 			c.forceStopFoundRunOver = len(o.openSessions(w)) == 0
+			// a graceful stop had already been acknowledged: the run is ending anyway, and whether
+			// its cleanup sees the force stop or has already settled on "stopped" is a photo finish
+			c.forceDuringGraceful = c.userStopOK
 		}
 		if op == "start" {
 			c.startActive, c.openedSinceStart, c.terminalAfterOpen = true, 0, false
@@ -409,6 +413,9 @@ func (o *Oracles) checkForceStopped(w *World) {
 	}
 	if open := o.openSessions(w); len(open) > 0 {
 		w.violate("C12", "force-stop-left-sessions-open", fmt.Sprintf("force stop and wait returned but plugin sessions %v are still open", open))
+	}
+	if c.forceDuringGraceful && (st == 2 || st == 3) {
+		return // the graceful stop that was under way completed; the run terminated, nothing was left to force
 	}
 	if st != 4 {
 		w.violate("C12", "force-stop-status", fmt.Sprintf("after a force stop the stored status is %s, expected degraded", statusName(st)))
